@@ -69,7 +69,8 @@ bool matchglob(const std::string& pattern, const std::string& name, bool caseIns
             switch (*p) {
             case '*':
                 // Step forward until we match the next character after *
-                while (*n != '\0' && *n != p[1]) {
+                // (a following wildcard can match at any position, so there is nothing to step to)
+                while (p[1] != '*' && p[1] != '?' && *n != '\0' && *n != p[1]) {
                     n++;
                 }
                 if (*n != '\0') {
